@@ -288,6 +288,23 @@ def data_body_factory(ctx):
         if not valid and exc is None:
             raise Violation("data argument that does not match the prior was accepted", kind=kind, n_sources=k,
                             n_offsets=noff, entry=case["entry"])
+        if valid and kind in ("list", "dict") and exc is None:
+            # the same container object, changed in place, handed to the same sampler again: it has to be re-validated
+            mutated = None
+            if kind == "list":
+                arg.append("not data" if case["seed"] % 2 else mk_data(3, 77))
+                mutated = "list grown in place"
+            else:
+                arg["zz_extra"] = mk_data(3, 78)
+                mutated = "dict grown in place"
+            try:
+                joker.marginal_ln_likelihood(arg, smp, in_memory=True)
+                raise Violation("the same container object, changed in place so that it no longer matches the prior, "
+                                "was accepted by a sampler that had validated it before", change=mutated, n_offsets=noff)
+            except Violation:
+                raise
+            except Exception:
+                ctx.classes["data:re-validated after in-place change"] += 1
         ctx.note_case(case, not valid or k > 1, [cell, "entry:" + case["entry"]])
 
     return body
